@@ -58,8 +58,8 @@ def run_property(prop, tier, quiet=False):
                 % (r.id, len(r.instances), sum(1 for i in r.instances if i["holds"]), r.desc[:90])
             )
     if unlisted:
-        os.makedirs(os.path.join(core.VERIF, "replay"), exist_ok=True)
-        path = os.path.join(core.VERIF, "replay", "%s.json" % prop)
+        os.makedirs(os.path.join(core.OUT, "replay"), exist_ok=True)
+        path = os.path.join(core.OUT, "replay", "%s.json" % prop)
         with open(path, "w") as f:
             json.dump([r.as_dict() for r in unlisted], f, indent=1)
         for r in unlisted:
